@@ -187,6 +187,8 @@ def eval_inproc(case, rng):
     files = {"a.pcapng": capa, "a.log": keysa, "b.pcapng": capb, "b.log": keysb}
     ea = rng.choice([[], ["-a"], ["-m"], ["-p", "8443"]])
     eb = rng.choice([[], ["-a"], ["-m"]])
+    if case["i"] % 5 == 2:
+        ea = ea + rng.choice([["-d"], ["-d", "INFO"], ["-d", "DEBUG"]])       # the earlier command asked for logging; the later one does not (the level is process-wide state too)
     if port:
         ea = rng.choice([["-p", str(port)], ["-p", str(port), "-m", f"{port}:9999"], ["-m", f"443:{port}", "-p", str(port), "8081"]])
     argv_a = ["-i", "{dir}/a.pcapng", "-o", "{dir}/outa.pcapng", "-s", "{dir}/a.log"] + ea
